@@ -58,9 +58,13 @@ type Obligation struct {
 	Time   float64
 	Model  string
 	Watch  []WatchTerm // named terms whose model values are requested (replay / debugging)
+	fn     *ssa.Function
+	M      int
+	funs   map[string]string // signature table of the term store the terms live in
 }
 
 type Exec struct {
+	topRets  []retState // return states of the function under verification (before merging)
 	P        *Prog
 	fn       *ssa.Function
 	contract *Contract
@@ -128,7 +132,10 @@ func (x *Exec) oblige(st *State, kind, label string, goal *Term, note string) {
 		return
 	}
 	mk := func(nm string, g *Term) {
-		o := &Obligation{Name: nm, Group: name, Func: x.funcDisplayName(), Kind: kind, Hyps: hy, Goal: g, Note: note, Watch: x.watch}
+		o := &Obligation{Name: nm, Group: name, Func: x.funcDisplayName(), Kind: kind, Hyps: hy, Goal: g, Note: note, Watch: x.watch, fn: x.fn}
+		if x.hasCfg {
+			o.M = x.cfgVal
+		}
 		if x.hasCfg {
 			o.Config = fmt.Sprintf("%s=%d", x.cfgVar, x.cfgVal)
 		}
@@ -427,6 +434,9 @@ func (x *Exec) runBody(fn *ssa.Function, st *State) (*State, []Val) {
 	exits := x.runRegion(cfg, nil, entries, &rets)
 	if len(exits) != 0 {
 		panic("internal: top region has exits")
+	}
+	if len(x.curFn) == 1 {
+		x.topRets = rets
 	}
 	if len(rets) == 0 {
 		// no reachable return
